@@ -921,6 +921,30 @@ fn selftest(which: Which) -> (u64, u64) {
     (injected, detected)
 }
 
+/// C02 over faulted runs: once the destination works again, what drop leaves behind (up to the length the
+/// header declares) is a well-formed file holding exactly the shapes whose write returned Ok.
+pub fn judge_c02_frun(pal: &crate::wexec::Palette, case: &crate::frun::FCase, run: &crate::frun::FRun) -> Vec<(String, String)> {
+    use crate::wexec::CallRes;
+    let mut out = vec![];
+    let n = case.ops.len();
+    for (i, r) in run.results.iter().enumerate() {
+        if let CallRes::Panic(p) = r {
+            out.push((format!("fault-run:{}:panic", case.ty.name()), format!("call {} panicked: {}", i, p)));
+        }
+    }
+    if !run.drop_undisturbed(n) {
+        return out;
+    }
+    let shapes: Vec<MRead> = run.accepted.iter().map(|k| pal.built[*k as usize].clone()).collect();
+    if let Some(c) = crate::oracle::shp_holds_exactly_opt(crate::frun::declared(&run.shp), case.ty, &shapes, true) {
+        out.push((
+            format!("fault-run:{}:{}", case.ty.name(), clause_class(&c)),
+            format!("faults {:?} fired in calls {:?}; results {:?}; the writer was dropped with the destination working, the .shp ({} bytes, judged up to its declared length) should hold the {} accepted shapes: {}", case.faults, run.fired, run.results, run.shp.len(), shapes.len(), c),
+        ));
+    }
+    out
+}
+
 pub fn check(which: Which, tier: Tier) -> i32 {
     let started = Instant::now();
     if !scratch_usable() {
@@ -933,6 +957,23 @@ pub fn check(which: Which, tier: Tier) -> i32 {
         enumerate_unit(which, &t, &us[b], ctx, tick);
     });
     cleanup_scratch();
+    let mut agg = agg;
+    let mut capped = capped;
+    if which == Which::C02 {
+        // the same statement when the destination failed once or twice and works again
+        use crate::wexec::WOp;
+        let hists = crate::frun::histories(&[WOp::W(0), WOp::W(1), WOp::F], tier.pick(3, 4));
+        let (a, c) = crate::frun::sweep(&ALL13, |_| None, &[true, false], &hists, true, deadline, |pal, case, run, ctx| {
+            let mut oh = Fnv::new();
+            oh.bytes(&run.shp);
+            ctx.case_done(case.hash(), true, oh.finish());
+            for (sig, d) in judge_c02_frun(pal, case, run) {
+                ctx.violation(sig, || case.to_json(), || d);
+            }
+        });
+        agg.absorb(a);
+        capped |= c;
+    }
     let st = selftest(which);
     let prop = match which {
         Which::C01 => "C01",
@@ -945,7 +986,7 @@ pub fn check(which: Which, tier: Tier) -> i32 {
             tier,
             level: "model_checking",
             engine: "E2 structure x deviation enumerator on the real ShapeWriter/ShapeReader",
-            rule: "every structure of the builder grammar (per type: vertex counts, part-length vectors, ring templates x declared roles, patch kinds x lengths) x every file sequence (n=1 for all, n=2,3 ordered tuples over the reduced different-size set) x every deviation set of size <= d from the per-dimension float alphabets; plus, for one type per family, EVERY part length from 2 up to the size bound and (Point, PolylineZ) EVERY record count up to the count bound (d = 0), a size ladder of many-part shapes, and every finalize placement around 1-5 writes; distinct = hash of all coordinate bit patterns and structure; non-trivial = >=2 records or >=2 parts or >=1 deviation",
+            rule: "every structure of the builder grammar (per type: vertex counts, part-length vectors, ring templates x declared roles, patch kinds x lengths) x every file sequence (n=1 for all, n=2,3 ordered tuples over the reduced different-size set) x every deviation set of size <= d from the per-dimension float alphabets; plus, for one type per family, EVERY part length from 2 up to the size bound and (Point, PolylineZ) EVERY record count up to the count bound (d = 0), a size ladder of many-part shapes, and every finalize placement around 1-5 writes; (C02) every history over {write a, write b, finalize} up to the fault-history bound x {with, without .shx} x 13 types with every single one-shot fault and every unordered pair of faults (operation k of .shp / .shx fails once): whenever no fault fired in drop, the .shp up to its declared length is well-formed and holds exactly the shapes whose write returned Ok; distinct = hash of all coordinate bit patterns and structure; non-trivial = >=2 records or >=2 parts or >=1 deviation",
             bounds: json!({
                 "types": 13,
                 "structures_total": nstructs,
@@ -955,6 +996,7 @@ pub fn check(which: Which, tier: Tier) -> i32 {
                 "d2_scope": "single-shape files over the reduced structure set (thorough only)",
                 "every_part_length_up_to": tier.pick(4200, 9000),
                 "every_record_count_up_to": tier.pick(1600, 3100),
+                "fault_history_bound": tier.pick(3, 4),
                 "routes": ["mem generic/concrete x iter shx/noshx", "mem generic/concrete read_nth", "disk from_path read_shapes/read_shapes_as/read_nth (d=0 sequences, C01)"],
             }),
             exhaustive: true,
@@ -974,6 +1016,13 @@ pub fn check(which: Which, tier: Tier) -> i32 {
 }
 
 pub fn replay(which: Which, case: &Value) -> Vec<(String, String)> {
+    if let Some(fc) = crate::frun::FCase::from_json(case) {
+        let pal = fc.palette();
+        return match catch(|| crate::frun::run(&pal, &fc)) {
+            Ok(r) => judge_c02_frun(&pal, &fc, &r),
+            Err(p) => vec![(format!("fault-run:{}:{}", fc.ty.name(), p.sig()), p.msg)],
+        };
+    }
     let case = match Case::from_json(case) {
         Some(c) => c,
         None => return vec![("bad-replay-file".into(), "cannot parse case".into())],
